@@ -130,7 +130,18 @@ type gpair[K comparable, V any] struct {
 }
 `)
 	}
-	if f.Yield {
+	if f.Yield && f.YieldStub {
+		sb.WriteString(`
+var yieldMask string
+var suspensions int
+
+// yield-free variant: the same program text, but the yield functions cannot block, so every
+// function is compiled in its direct (non-resumable) form.
+func yield(id int) {}
+
+func y(id int, v int) int { return v }
+`)
+	} else if f.Yield {
 		sb.WriteString(`
 var yieldMask string
 var suspensions int
